@@ -345,6 +345,86 @@ pub mod unit_nuts {
             lemma_bt_lens::<B, G>(t, if v == -1 { st.minus } else { st.plus }, logu, v, st.j, eps, joint0, unif_next(st.rng));
         }
     }
+    // ---- C14: leaves of zero / undefined density are inadmissible and stop the tree; only admissible points are adopted ----
+    pub open spec fn bad_density(a: XR) -> bool { a is NaN || a is NegInf }
+    /// a single leapfrog step ending at log-density -inf or NaN yields a leaf with n' = 0 and s' = false
+    pub proof fn lemma_nuts_leaf_inadmissible<B: AutodiffBackend, G: GradientTarget<B>>(t: &G, p: Pt, logu: XR, v: int, eps: XR, joint0: XR, s: RngState)
+        requires bad_density(lf::<B, G>(t, p, xr_mul(XR::Fin(v as real), eps)).1)
+        ensures ({ let tr = bt::<B, G>(t, p, logu, v, 0, eps, joint0, s).0; tr.n == 0 && !tr.s })      // [C14.nuts_zero_or_nan_density_leaf_is_inadmissible_and_stops_the_tree]
+    {
+        reveal_with_fuel(bt, 1);
+    }
+    /// the doubling loop adopts a point only from a subtree that did not stop and that contains an admissible point
+    pub proof fn lemma_nuts_adopts_only_from_live_nonempty_tree<B: AutodiffBackend, G: GradientTarget<B>>(t: &G, eps: XR, logu: XR, joint0: XR, pol: bool, st: OSt)
+        requires st.n >= 1
+        ensures ({
+            let nx = outer_next::<B, G>(t, eps, logu, joint0, pol, st);
+            let u1 = val(unif_out(st.rng));
+            let v: int = if xr_lt(u1, half()) == pol { 1 } else { -1 };
+            let tr = bt::<B, G>(t, if v == -1 { st.minus } else { st.plus }, logu, v, st.j, eps, joint0, unif_next(st.rng)).0;
+            nx.x == st.x || (nx.x == tr.cx && tr.s && tr.n >= 1)                                        // [C14.nuts_never_adopts_from_a_stopped_or_empty_subtree]
+        })
+    {
+        broadcast use ax_unif_range;
+        let u1 = val(unif_out(st.rng));
+        let v: int = if xr_lt(u1, half()) == pol { 1 } else { -1 };
+        let (tr, sb) = bt::<B, G>(t, if v == -1 { st.minus } else { st.plus }, logu, v, st.j, eps, joint0, unif_next(st.rng));
+        if tr.n == 0 {
+            assert(xr_div(XR::Fin(0real), XR::Fin(st.n as real)) == XR::Fin(0real / (st.n as real)));
+            assert(0real / (st.n as real) == 0real) by(nonlinear_arith) requires st.n >= 1;
+        }
+    }
+    /// joint log-density of the candidate point carried by the tree (same recursion as bt)
+    pub open spec fn bt_cj<B: AutodiffBackend, G: GradientTarget<B>>(t: &G, p: Pt, logu: XR, v: int, j: nat, eps: XR, joint0: XR, s: RngState) -> XR
+        decreases j
+    {
+        if j == 0 {
+            let (p1, lp1) = lf::<B, G>(t, p, xr_mul(XR::Fin(v as real), eps));
+            joint_of(lp1, p1.r)
+        } else {
+            let (t1, s1) = bt::<B, G>(t, p, logu, v, (j - 1) as nat, eps, joint0, s);
+            if !t1.s { bt_cj::<B, G>(t, p, logu, v, (j - 1) as nat, eps, joint0, s) } else {
+                let p2 = if v == -1 { t1.minus } else { t1.plus };
+                let (t2, s2) = bt::<B, G>(t, p2, logu, v, (j - 1) as nat, eps, joint0, s1);
+                let u = val(unif_out(s2));
+                let take2 = xr_lt(u, xr_div(XR::Fin(t2.n as real), XR::Fin(max1(t1.n + t2.n) as real)));
+                if take2 { bt_cj::<B, G>(t, p2, logu, v, (j - 1) as nat, eps, joint0, s1) } else { bt_cj::<B, G>(t, p, logu, v, (j - 1) as nat, eps, joint0, s) }
+            }
+        }
+    }
+    /// the candidate of a tree with n >= 1 is slice-admissible (joint > log u) and its log-density is the tree's clp:
+    /// hence its log-density is neither -inf nor NaN
+    pub proof fn lemma_nuts_candidate_admissible<B: AutodiffBackend, G: GradientTarget<B>>(t: &G, p: Pt, logu: XR, v: int, j: nat, eps: XR, joint0: XR, s: RngState)
+        ensures ({
+            let tr = bt::<B, G>(t, p, logu, v, j, eps, joint0, s).0;
+            let cj = bt_cj::<B, G>(t, p, logu, v, j, eps, joint0, s);
+            (exists |r: V| cj == joint_of(tr.clp, r)) && (tr.n >= 1 ==> xr_lt(logu, cj) && !bad_density(tr.clp))   // [C14.nuts_candidate_of_nonempty_tree_is_admissible_with_defined_density]
+        })
+        decreases j
+    {
+        reveal_with_fuel(bt, 2);
+        broadcast use ax_unif_range;
+        if j == 0 {
+            let (p1, lp1) = lf::<B, G>(t, p, xr_mul(XR::Fin(v as real), eps));
+            assert(bt_cj::<B, G>(t, p, logu, v, j, eps, joint0, s) == joint_of(lp1, p1.r));
+        } else {
+            let (t1, s1) = bt::<B, G>(t, p, logu, v, (j - 1) as nat, eps, joint0, s);
+            lemma_nuts_candidate_admissible::<B, G>(t, p, logu, v, (j - 1) as nat, eps, joint0, s);
+            if t1.s {
+                let p2 = if v == -1 { t1.minus } else { t1.plus };
+                let (t2, s2) = bt::<B, G>(t, p2, logu, v, (j - 1) as nat, eps, joint0, s1);
+                lemma_nuts_candidate_admissible::<B, G>(t, p2, logu, v, (j - 1) as nat, eps, joint0, s1);
+                let u = val(unif_out(s2));
+                let nn = max1(t1.n + t2.n) as real;
+                if t2.n == 0 {
+                    assert(0real / nn == 0real) by(nonlinear_arith) requires nn >= 1real;
+                }
+                if t1.n == 0 && t2.n >= 1 {
+                    assert((t2.n as real) / nn == 1real) by(nonlinear_arith) requires nn == t2.n as real, nn >= 1real;
+                }
+            }
+        }
+    }
     pub proof fn lemma_pow2_fits(j: nat)
         requires j <= 62
         ensures vstd::arithmetic::power2::pow2(j) <= 0x4000_0000_0000_0000
